@@ -49,7 +49,7 @@ func init() {
 	regWorld("c02_billing_faults", 400, 25000,
 		"keep-alives with injected storage errors: a keep-alive that returns an error (other than the low-balance cut-off) must leave every balance as it was - all or nothing",
 		profile{prop: "C02", oracles: []string{"C02F"}, connect: 3, reconnect: 1, update: 14, addNode: 2, advance: 8,
-			minOps: 10, maxOps: 50, minBal: []int64{-999}, storeFaults: true})
+			minOps: 10, maxOps: 50, minBal: []int64{-999}, storeFaults: true, storeYields: true}) // (yield points: a little time passes between the store calls of one request)
 	regWorld("c02_billing_seq", 500, 30000,
 		"keep-alive runs of light clients with stable and changing tracked-peer sets, elapsed times from 0 to days, prices up to 2^200, peers sharing the client's wallet, host keep-alives, reconnects between keep-alives; every balance is compared with floor(elapsed*price/interval) per active peer; sliced spans are compared with the unsliced total",
 		profile{prop: "C02", oracles: []string{"C02"}, connect: 2, reconnect: 1, update: 16, peer: 0, addNode: 2, advance: 10, deposit: 0, closeConn: 0,
